@@ -52,8 +52,10 @@ def designated(state):
                     best = (v, i)
             return (best[1] + 1) % n
         return 0
-    ups = {i: list(state.get_up_cards(i)) for i in range(n)
-           if state.statuses[i]}
+    # exposed cards read from the raw piles (not through get_up_cards)
+    ups = {i: [c for c, u in zip(state.hole_cards[i],
+                                 state.hole_card_statuses[i]) if u]
+           for i in range(n) if state.statuses[i]}
     if op == 'LOW_CARD':
         return min(ups, key=lambda i: min(
             (STD.index(c.rank.value), SUITS.index(c.suit.value))
